@@ -587,8 +587,17 @@ def _check_retry(run, repo, world, mod):
                 ok, why = False, "handlers %s" % types
                 continue
             # handler: re-raise exactly when `exceptions` is true
+            from ..inline import acopy as _acp
+
+            class _Cont(ast.NodeTransformer):
+                # `continue` in the handler goes round the retry loop again:
+                # for the handler's own paths it is "swallowed"
+                def visit_Continue(self, n):
+                    return ast.copy_location(ast.Return(
+                        ast.Name("<continue>", ast.Load())), n)
             hf = ast.FunctionDef(name="handler", args=f2.args,
-                                 body=list(t.handlers[0].body),
+                                 body=[_Cont().visit(_acp(x))
+                                       for x in t.handlers[0].body],
                                  decorator_list=[], returns=None,
                                  type_comment=None, type_params=[])
             ast.fix_missing_locations(hf)
@@ -608,7 +617,10 @@ def _check_retry(run, repo, world, mod):
                 if p_.kind == "raise" and p_.expr is None:
                     if conds != {("exceptions", True)}:
                         ok, why = False, "re-raises when %s" % sorted(conds)
-                elif p_.kind == "fall":
+                elif p_.kind == "fall" or (
+                        p_.kind == "return" and isinstance(
+                            p_.expr, ast.Name) and
+                        p_.expr.id == "<continue>"):
                     if conds != {("exceptions", False)}:
                         ok, why = False, "swallows when %s" % sorted(conds)
                 else:
